@@ -27,11 +27,20 @@ Definition canonical_state (k : fkind) (st : fstate) : Prop :=
 Definition coherent_pspec (p : pspec) : Prop :=
   wf_pref (ps_pref p) /\ value_enc (ps_enc p) = true /\ ps_packer p = PkDefault /\ 0 <= ps_len p.
 
+(* the domain of a primitive field: the values Pack then Unpack reproduces - the padded value lies in the encoder's
+   domain, and removing the padding and storing the bytes (SetBytes) gives the object state back *)
 Definition prim_in_domain (p : pspec) (st : fstate) : Prop :=
+  exists raw, prim_raw st = Ok raw /\
+              prim_setbytes (ps_kind p) (unpad (ps_pad p) (pad (ps_pad p) raw (ps_len p))) = Ok st /\
+              enc_dom (ps_enc p) (pad (ps_pad p) raw (ps_len p)) = true /\
+              (* Go slices are shorter than 2^63 *)
+              zlen (pad (ps_pad p) raw (ps_len p)) <= max_int.
+
+(* a sufficient condition: a canonical state whose bytes do not begin (end) with the pad character *)
+Definition prim_in_domain_strict (p : pspec) (st : fstate) : Prop :=
   canonical_state (ps_kind p) st /\
   exists raw, prim_raw st = Ok raw /\ pad_ok (ps_pad p) raw = true /\
               enc_dom (ps_enc p) (pad (ps_pad p) raw (ps_len p)) = true /\
-              (* Go slices are shorter than 2^63 *)
               zlen (pad (ps_pad p) raw (ps_len p)) <= max_int.
 
 Lemma itoa_atoi z : 0 <= z <= max_int -> atoi (itoa z) = Some z /\ itoa z <> [].
@@ -61,12 +70,18 @@ Qed.
 Lemma value_enc_units e x w : value_enc e = true -> enc_units e x w = zlen x /\ enc_canon e x w = x.
 Proof. destruct e; cbn; intros H; try discriminate; split; reflexivity. Qed.
 
+Lemma prim_in_domain_of_strict p st : prim_in_domain_strict p st -> prim_in_domain p st.
+Proof.
+  intros (Hcan & raw & Hraw & Hpad & Hdom & Hmax). exists raw. split; [exact Hraw|]. split; [|split; assumption].
+  rewrite unpad_pad by exact Hpad. apply setbytes_canonical; assumption.
+Qed.
+
 (* Pack then Unpack of a primitive field: same state, exactly the packed bytes consumed, whatever follows
    and whatever the object held before *)
 Theorem prim_roundtrip p st b : coherent_pspec p -> prim_in_domain p st -> prim_pack p st = Ok b ->
   forall st0 rest, prim_unpack p st0 (b ++ rest) = (st, UOk (zlen b)).
 Proof.
-  intros (Hwf & Hve & Hpk & HL) (Hcan & raw & Hraw & Hpad & Hdom & Hmax) Hp st0 rest.
+  intros (Hwf & Hve & Hpk & HL) (raw & Hraw & Hset & Hdom & Hmax) Hp st0 rest.
   unfold prim_pack in Hp. rewrite Hraw in Hp. cbn [obind] in Hp. unfold prim_pack_raw in Hp. rewrite Hpk in Hp.
   set (v := pad (ps_pad p) raw (ps_len p)) in *.
   destruct (enc_roundtrip (ps_enc p) v Hdom) as (w & Hw & Hrt). rewrite Hw in Hp. cbn [obind] in Hp.
@@ -78,8 +93,7 @@ Proof.
   unfold prim_unpack, prim_unpack_raw. rewrite <- app_assoc, Hdec. cbn [obind].
   pose proof (zlen_nonneg pre). pose proof (zlen_nonneg w). pose proof (zlen_nonneg rest).
   replace ((zlen pre <? 0) || (zlen (pre ++ w ++ rest) <? zlen pre)) with false by (rewrite !zlen_app; lia).
-  rewrite Hpk, zdrop_app, Hrt. cbn [obind]. unfold v. rewrite unpad_pad by exact Hpad.
-  rewrite (setbytes_canonical _ _ _ Hcan Hraw). f_equal. f_equal. rewrite zlen_app. lia.
+  rewrite Hpk, zdrop_app, Hrt. cbn [obind]. subst v. rewrite Hset. f_equal. f_equal. rewrite zlen_app. lia.
 Qed.
 
 (* ---------------- C08: declared lengths are enforced ---------------- *)
